@@ -3034,6 +3034,9 @@ class Set(Collection):
         setdata = obj._vals_.get(attr)
         if setdata is None or not setdata.is_fully_loaded: setdata = attr.load(obj)
         reverse = attr.reverse
+        if reverse.is_collection and reverse.entity._subclasses_:
+            # items of a many-to-many collection are created from their primary keys alone: load them to learn their real classes
+            reverse.entity._load_many_(setdata)
         if not reverse.is_collection and reverse.pk_offset is None:
             added = setdata.added or ()
             for item in setdata:
